@@ -16,6 +16,9 @@
 -/
 import BumpverVerif.Model.Rewrite
 import BumpverVerif.Proofs.RewriteLemmas
+-- the functions this property's mechanism lives in are TRANSLATED from the Python source on every run (Gen/F_*.lean) and proved equal to the hand model:
+import BumpverVerif.Proofs.Tie_hasOverlap
+import BumpverVerif.Proofs.Tie_detectLineSep
 namespace BV
 
 /-- `sep.join(content.split(sep)) == content` for every non-empty separator and every content:
